@@ -10,8 +10,8 @@ crate and the grammar read from asm.pest):
   trap) — and `FromStr` maps it back to the same byte;
 * `C03_push_mnemonics`: for N = 1…32, `"push" ~ word_size` consumes exactly
   `pushN`, and the `push` alternative does not match `push0`;
-* `C03_offsets`: reported offsets are the prefix sums of instruction sizes
-  (`Props/C04.lean`).
+* reported offsets are the prefix sums of instruction sizes: `C04_lossless`
+  (`OffsetsFrom`, `Props/C04.lean`).
 * `C03_parse`, `C03_roundtrip`: the END-TO-END statement, for every byte string
   of complete instructions over defined Cancun opcodes: the listing text
   (`Listing.listing`: `mnemonic` or `mnemonic 0x<hex>` per line), run through the
